@@ -26,6 +26,7 @@ renderings and the 64-bit directory names".
 -/
 import OccaProofs.Lemmas.DepHash
 import OccaProofs.Lemmas.DepHashWF
+import OccaProofs.Lemmas.HashExact
 
 namespace Occa.DepHash.C07
 open Occa.CacheKeyBase Occa.CacheKey Occa.DepHash
@@ -131,6 +132,69 @@ theorem C07_every_build_current_dump (e : DEnv κ String δ) (henc : e.enc = dum
      fun cache fs hinv => cacheW_of_inv e chainShape hfw hincl compile cache hinv fs⟩
   have hinv := inv_run e hi compile ops { fs := fs0, cache := [] } ho (inv_nil e _ compile)
   exact (build_current e hi compile _ _ hinv (ho.cache _ _ hinv) c (ok_of_wf e.toEnv shape hfw c hc)).2
+
+/-- The form that applies to the real, non-injective hash: with the dump model as encoder and
+    injective embedding / renderings / mode constant (as in the C++), after any history of
+    well-formed configurations a build can be stale, wrongly rejected or fail in the key
+    resolution ONLY IF the hash function has a collision or two different keys share a cache
+    directory (the 64-bit directory names). -/
+theorem C07_stale_build_needs_collision (e : DEnv κ String δ) (henc : e.enc = dump)
+    (hraw : Function.Injective e.raw) (hfull : Function.Injective e.full)
+    (htweak : Function.Injective e.tweak) (hfw : ∀ k, (e.full k).WF)
+    (hincl : ∀ t p, p ∈ e.incl t → keyOk p)
+    (compile : String × List (Option J) → List (String × String) → β)
+    (fs0 : FS) (ops : List Op) (hops : ∀ c, Op.build c ∈ ops → c.WF) (c : Config) (hc : c.WF) :
+    (∃ x y : String, x ≠ y ∧ e.H x = e.H y) ∨ (∃ k k' : κ, k ≠ k' ∧ e.dir k = e.dir k') ∨
+    ((∀ b, ((build e compile (reached e compile fs0 ops).fs (reached e compile fs0 ops).cache c).2.1 = .hit b ∨
+           (build e compile (reached e compile fs0 ops).fs (reached e compile fs0 ops).cache c).2.1 = .miss b) →
+        ∃ x, expand e.incl (reached e compile fs0 ops).fs e.depth (e.incl c.src) = some x ∧
+          b = compile c.view x) ∧
+    ((build e compile (reached e compile fs0 ops).fs (reached e compile fs0 ops).cache c).2.1 = .parseError →
+        expand e.incl (reached e compile fs0 ops).fs e.depth (e.incl c.src) = Option.none) ∧
+    (build e compile (reached e compile fs0 ops).fs (reached e compile fs0 ops).cache c).2.1 ≠ .chainError) := by
+  by_cases h1 : ∃ x y : String, x ≠ y ∧ e.H x = e.H y
+  · exact Or.inl h1
+  by_cases h2 : ∃ k k' : κ, k ≠ k' ∧ e.dir k = e.dir k'
+  · exact Or.inr (Or.inl h2)
+  refine Or.inr (Or.inr ?_)
+  apply C07_every_build_current_dump e henc _ hraw hfull htweak _ hfw hincl compile fs0 ops hops c hc
+  · intro x y hxy
+    exact Classical.byContradiction fun hn => h1 ⟨x, y, hn, hxy⟩
+  · intro k k' hkk
+    exact Classical.byContradiction fun hn => h2 ⟨k, k', hn, hkk⟩
+
+/-- the exact model (see `exactEnvW`) with the directory naming of io::hashDir (`getString()`),
+    the include scanner of the driver (`#include "…"` lines) and any expansion bound -/
+def exactDEnvW (openmp : Bool) (dev : WLanes) (depth : Nat) : DEnv WLanes String String :=
+  { exactEnvW openmp dev with dir := fun K => shortStr K.1, incl := scanIncludes, depth := depth }
+
+/-- The closed form for the exact model: after any history of builds of configurations with
+    well-formed property values, a build is stale, wrongly rejected or
+    fails in the key resolution only if two different strings have the same `occa::hash`, or two
+    different hashes have the same 16-character directory name. -/
+theorem C07_exact_stale_build_needs_collision (openmp : Bool) (dev : WLanes)
+    (depth : Nat)
+    (compile : String × List (Option J) → List (String × String) → β)
+    (fs0 : FS) (ops : List Op) (hops : ∀ c, Op.build c ∈ ops → c.WF) (c : Config) (hc : c.WF) :
+    (∃ x y : String, x ≠ y ∧ hashStr x = hashStr y) ∨
+    (∃ k k' : WLanes, k ≠ k' ∧ shortStr k.1 = shortStr k'.1) ∨
+    ((∀ b, ((build (exactDEnvW openmp dev depth) compile (reached (exactDEnvW openmp dev depth) compile fs0 ops).fs
+              (reached (exactDEnvW openmp dev depth) compile fs0 ops).cache c).2.1 = .hit b ∨
+           (build (exactDEnvW openmp dev depth) compile (reached (exactDEnvW openmp dev depth) compile fs0 ops).fs
+              (reached (exactDEnvW openmp dev depth) compile fs0 ops).cache c).2.1 = .miss b) →
+        ∃ x, expand scanIncludes (reached (exactDEnvW openmp dev depth) compile fs0 ops).fs depth (scanIncludes c.src) = some x ∧
+          b = compile c.view x) ∧
+    ((build (exactDEnvW openmp dev depth) compile (reached (exactDEnvW openmp dev depth) compile fs0 ops).fs
+        (reached (exactDEnvW openmp dev depth) compile fs0 ops).cache c).2.1 = .parseError →
+        expand scanIncludes (reached (exactDEnvW openmp dev depth) compile fs0 ops).fs depth (scanIncludes c.src) = Option.none) ∧
+    (build (exactDEnvW openmp dev depth) compile (reached (exactDEnvW openmp dev depth) compile fs0 ops).fs
+        (reached (exactDEnvW openmp dev depth) compile fs0 ops).cache c).2.1 ≠ .chainError) := by
+  rcases C07_stale_build_needs_collision (exactDEnvW openmp dev depth) rfl (fun _ _ h => h)
+      (exactEnvW_full_inj openmp dev) (exactEnvW_tweak_inj openmp dev) (exactEnvW_full_wf openmp dev)
+      scanIncludes_keyOk compile fs0 ops hops c hc with ⟨x, y, hxy, hh⟩ | h2 | h3
+  · exact Or.inl ⟨x, y, hxy, congrArg Subtype.val hh⟩
+  · exact Or.inr (Or.inl h2)
+  · exact Or.inr (Or.inr h3)
 
 /-- Why F11 needed a different chaining rather than a better hash: with the historical step —
     fold the current hashes of the recorded files into the key with a self-inverse operation
